@@ -32,7 +32,7 @@ ALPHABET = [chr(c) for c in range(32, 127)] + WS[1:] + EXTRA
 WIDE = ["\x1c", "\x1f", "\x85", "\xa0", "\u00b2", "\u00bd", "\u00b5", "\u00e9", "\u03c0", "\u0663", "\u2003", "\U0001f600", "\u03a9", "\u00df", "\u200b", "\uff11"]
 IDENT_RE = re.compile(r"[_a-zA-Z0-9μ€$£¥]")
 NUMERAL_RE = re.compile(r"(?:0[xobd][0-9a-fA-F]+|(?:[0-9]+\.[0-9]*|\.[0-9]+|[0-9]+)(?:e[-+]?[0-9]+)?)\Z")
-HUGE_EXP_RE = re.compile(r"e[-+]?[0-9]{5}")
+HUGE_EXP_RE = re.compile(r"e[-+]?0*[1-9][0-9]{4}")
 LEXERRS = ("UnknownTokenError", "BadNumberError", "UnclosedStringError", "UnclosedInstantError")
 
 
@@ -245,6 +245,8 @@ def gen_token(rng, consts):
         m = gen_digits(rng, hi=5)
         sg = rng.choice(("", "+", "-"))
         e = gen_digits(rng, hi=2)
+        if rng.random() < 0.25:
+            e = "0" * rng.randrange(1, 12) + e       # a zero-padded exponent spells the same power of ten
         return ("sci", m + "e" + sg + e, ("number", Fraction(int(m)) * Fraction(10) ** int(sg + e)))
     if k == 3:
         form = rng.randrange(3)
